@@ -13,7 +13,7 @@ META = dict(
                 "re-publication, CacheCoherent / Selects / NoNeedlessBody / StoreFunctional on every history (with an as-built "
                 "control that must violate CacheCoherent). Every enumerated request and every history is replayed through "
                 "gateway.NewHandler over a BlocksBackend with a mutable name system and all response headers are compared. A recorded "
-                "random client session (700 / 6000 requests across all families, both site versions, four names, four configs, "
+                "random client session (700 / 4000 requests across all families, both site versions, four names, four configs, "
                 "validators taken from real responses) is validated as a behaviour of the state machine by TraceGatewayCond."),
     level_note=("Trusted: net/http + httptest recorder, the harness's rendering of request classes to URL/headers and its parse of "
                 "response headers, mimetype sniffing results for the three fixture files, exact header texts of the Cache-Control "
@@ -61,7 +61,7 @@ def run(ctx):
                        "Accept), R (IPNS records). G2: every history of %d steps over Publish/Fetch/Reval with %s. non-trivial = "
                        "request whose ideal response is a 304, an error/redirect, a non-default format, or that exercises a deviation; "
                        "history with a Reval after a Publish or across two Accept classes. T: seeded random client session of "
-                       "700 / 6000 requests over all families, versions, names and configs with validators from real responses" %
+                       "700 / 4000 requests over all families, versions, names and configs with validators from real responses" %
                        ((3, "3 kinds x 3 Accept classes") if q else (3, "4 kinds x 5 Accept classes, plus 4 steps over 2x2")))
     # ---- M (non-vacuity control): with the as-built candidate rule a URL-keyed cache becomes incoherent
     ctl = ctx.tlc_mc(SPEC, "GatewayCond.tla", "MCGatewayCondAsBuilt.cfg", timeout=1200, deadlock=False,
